@@ -3,5 +3,6 @@ CONSTANTS WC = 2
  WI = 3
  WL = 5
  FIXED = TRUE
+ NarrowWrap = FALSE
 INVARIANTS Accepts SameMatch
 CHECK_DEADLOCK FALSE
